@@ -138,6 +138,13 @@ class FileModel:
         self.pending = []; self.abuf = None; self.mode = CLOSED
         return {rc}
 
+    def op_reopen(self, o):
+        """close + open for writing: implicit enddef, everything else must survive"""
+        self.pending = []; self.abuf = None; self.saved = None
+        self.mode = COLL; self.rdonly = False
+        for v in self.vars: v['nofill'] = None
+        return 0
+
     def op_abort(self, o):
         if self.mode == DEF_RE and self.saved:
             self.dims = self.saved['dims']; self.gatts = self.saved['gatts']; self.vars = self.saved['vars']; self.fillmode = self.saved['fillmode']
